@@ -343,7 +343,8 @@ def io_check(run, suites, judge_props, snapshots=True, conc_runs=None, design=No
         out = os.path.join(run.work, 'cio-%d.out' % i)
         tr = os.path.join(run.work, 'cio-%d.ndjson' % i)
         cmd = [os.path.join(BIN, 'conc'), '--cfg', json.dumps(h), '--clients', str(cr['clients']), '--ops', str(cr['ops']), '--keys', '8',
-               '--out', os.path.join(run.work, 'cio-%d.conc' % i), '--io-out', tr, '--sessions', '2', '--rounds', str(cr.get('rounds', 10))]
+               '--out', os.path.join(run.work, 'cio-%d.conc' % i), '--io-out', tr, '--sessions', '2', '--rounds', str(cr.get('rounds', 10)),
+               '--lifecycle', str(cr.get('lifecycle', 0))]
         rc = subprocess.run(cmd, stdout=open(out, 'w'), stderr=open(out + '.err', 'w')).returncode
         if rc != 0 or not os.path.exists(tr):
             raise ToolError('concurrent driver failed (rc=%s)' % rc)
@@ -445,7 +446,13 @@ def check_C07(run):
              acts=['write', 'delete', 'restart', 'restart_corrupt'] + LIFE_ALL, preds=('always', 'ifactive'), nkeys=2,
              restarts_set=store.restarts(), simulate=200 if q else 10000, workers=1 if q else 8),
     ]
-    return io_check(run, suites, ['C07'])
+    # blob files under concurrency: several clients and the worker create, close, restore and replace the active blob
+    # while data operations run; the complete file-operation trace must still be one PearlIO allows (a blob id is
+    # created once, appends tile, nothing is written into a blob except by append)
+    conc = [dict(clients=16, ops=60 if q else 400, rounds=4, lifecycle=120, cfg=dict(rt='mt', ks=8, bloom='small', group=2)),
+            dict(clients=12, ops=60 if q else 400, rounds=4, lifecycle=200, cfg=dict(rt='mt', ks=8, bloom='off', group=3, max_recs=20)),
+            dict(clients=16, ops=50 if q else 300, rounds=4, lifecycle=120, cfg=dict(rt='ct', ks=8, bloom='off', group=2))]
+    return io_check(run, suites, ['C07'], conc_runs=conc)
 
 
 
